@@ -22,6 +22,17 @@ CLAIMED = {
             "expressions; every popped batch is filed/acknowledged/failed/requeued exactly once on every path; reply unpacking matches "
             "ProduceResponse_vN for every selectable N; flush/close/stop cover queued and pending batches in the right order; a dying "
             "sender fails everything and later sends. Liveness ('within bounded time') is not decided."),
+    "C07": ("CFG dominance / no-suspension path rules, who-writes and who-calls tables, error->effect tables extracted from if/elif "
+            "chains and cross-checked against KIP-98",
+            "Decides: pending partitions are muted for produce and acknowledged only on NoError of AddPartitionsToTxn; one transactional "
+            "request at a time in protocol priority; EndTxn dominated by the flush of the transaction's batches; send() guarded with no "
+            "suspension before enqueue; coordinator-side registry forgotten only when the transaction ended; handler error tables. "
+            "Atomicity as observed by a reader over all fault histories is not decided."),
+    "C16": ("exhaustive finite evaluation of the transition predicate on its AST (49 pairs) against the protocol table; who-writes "
+            "(state only via the validated transition); dominance rules on API guards, abortable and fatal paths",
+            "Decides: the transition table admits exactly the protocol order; all state writes go through it; API calls check before "
+            "acting and raise before any effect; commit after an abortable error re-raises, abort re-arms the waiter and reaches the "
+            "coordinator; fatal errors kill the sender, fail all batches, and the context manager does not abort afterwards."),
 }
 
 NA = {
